@@ -1,7 +1,9 @@
 ---- MODULE PayloadEmit ----
 (* evaluates the theorems (ASSUME) of Payload.tla and writes the case space *)
 EXTENDS Payload, Json, IOUtils
-ASSUME ndJsonSerialize(IOEnv.OUT_FILE, SetToSeq(Cases))
+(* WHAT = "fixedmask": only the cases in which the metadata carries a fixed mask or the payload is masked (C18) *)
+Sel == IF "WHAT" \in DOMAIN IOEnv /\ IOEnv.WHAT = "fixedmask" THEN {c \in Cases : c.om = "fixed" \/ c.form = "masked"} ELSE Cases
+ASSUME ndJsonSerialize(IOEnv.OUT_FILE, SetToSeq(Sel))
 VARIABLE x
 Init == x = 0
 Next == UNCHANGED x
